@@ -707,13 +707,17 @@ def build(tier):
             'table cache_t::score_dense / score_kbest: what is stored for a better candidate is one consistent table (score of that evaluation, feature, K tables, hashes / hash2tables / coefficients of the tracked row: dense row = bin, k-best row fv = the bin sorted at position fv) whose coefficients are the optimal constants r1(bin, o) / x0(bin) of the bin the row stands for; make_score gets n = m_samples',
             'split of stump / hinge / affine / tables: for the position i of the given list with a non-missing (active) value, cluster.assign is called exactly once with THAT sample samples(i) and the group the predictor uses for its value, nothing is assigned for a missing one; robust to the capture lists (stubs, prototypes and closure structs are generated from the lambdas as they are in the source)',
             'wlearner::make_score (index discipline only): rss is clamped below by 1e3 * epsilon and passed with (k, n) unchanged and in order to exactly the formula the criterion names (AIC / AICc / BIC uninterpreted), the plain criterion returns the clamped rss',
+            'minimum RSS of ONE candidate, over the reals, on the real scoring code walked at a generic output coefficient (symbolic number of outputs; specs/C10/rss_smt.py, back end B): stump cache_t::score (with x0_/r1_/r2_neg/pos, output_neg/pos and the file-local ::score walked at their calls): the rss handed to make_score is SUM_o [min-RSS(left) + min-RSS(right)] + missing_rss with min-RSS = r2 - r1^2/x0 per side and output, the stored coefficients output_neg / output_pos are the group means r1/x0, n = total + missing count; hinge cache_t::score_neg / score_pos (with beta_neg/pos, beta0, the twelve moment accessors and ::beta / ::score walked): rss = SUM_o [(r2 - B^2/D)(active side) + r2(inactive side)] + missing_rss with B = rx - t r1, D = x2 - 2 t x1 + t^2 x0, the stored slope is B/D; table cache_t::score(bin) = SUM_o (r2 - r1^2/x0); every division executed is defined under x0 > 0 resp. D > 0; lemmas: for every constant c resp. slope b the RSS r2 - 2 c r1 + x0 c^2 resp. r2 - 2 b B + b^2 D is >= that minimum, attained exactly at r1/x0 resp. B/D (unique for the constant); induction over the samples entered: these quadratic forms ARE the residual sums of squares SUM (res - c)^2 resp. SUM (res - b (x - t))^2 of the entries accumulated by accumulator_t::update (base: cleared accumulator; step: one update, as proved in accum.h), D = SUM (x - t)^2, and the moments of total minus left are the moments of the entries not in left',
+            'minimum over the candidates of a feature (stump, hinge sweeps; ghost cut): EVERY boundary between two different consecutive sorted values is evaluated exactly once (hinge: once per direction) and no other cut is; the score the cache ends with is <= every finite score evaluated there, <= the score it started with (so it stays the best over the features of the thread), is a number (not NaN), and is the old score or the score of a stored candidate',
+            'score_dense: the rss is accumulated from exactly one reduction per bin, the one of the ghost bin being SUM_o (r2 - r1^2/x0) of that bin',
             'dtree do_predict: through wlearner_t::split (compatibility check, then do_split) the row i of outputs receives exactly one update, the m_tables row of the group split() reports for samples(i), and none if there is no group; depth 1: the stump_do_predict contract',
         ],
         'not_decided': [
-            'minimum RSS over the hypothesis class (all do_fit functions, accumulators, values of the criteria): optimisation over float moment sums; accumulator_t (moment sums, cluster()) is not under contract',
+            'minimum RSS over the hypothesis class, what remains open: IEEE arithmetic (all optimality statements are over the reals: the float moment sums and the float comparison of scores are not the real ones); the composition of the pieces into one statement about do_fit (per candidate: rss_smt + accum.h / fit.h accumulators; over the candidates of a feature: fit.h .best; over the features of a thread: the cache keeps its best score across sweeps (.best: final <= old); over the threads: min_reduce ASSUMED to return the smallest score) is an argument in prose, not a machine-checked theorem; affine least squares (cache_t::score / w / b of affine.cpp), k-best / k-split selection; that D > 0 / x0 > 0 in the hinge when all active values equal the threshold (then the code divides 0 by 0 and isfinite rejects the candidate: not modelled over the reals)',
+            'hinge score_neg / score_pos hand make_score n = the ACTIVE-side count + missing count, not the number of samples (the stump hands total + missing): irrelevant for the RSS criterion of the property, changes AIC / AICc / BIC of hinge candidates (observed while proving rss/stump/count; recorded, not a C10 violation)',
             'termination of the breadth-first walks of dtree do_split / do_fit; the scores, samples and stopping rule of dtree do_fit (stump fits are opaque)',
             'the count in missing_cnt (a float sum of 1.0); the values of scores / coefficients (uninterpreted)',
-            'accumulator_t::cluster() and table cache_t::score_ksplit (k-split clustering over 2-D / 5-D tensors), cache_t::update (label -> bin), the float accumulation of rss inside score_dense / score_kbest (which gains are added is not tracked, only what is stored)',
+            'accumulator_t::cluster() and table cache_t::score_ksplit (k-split clustering over 2-D / 5-D tensors), cache_t::update (label -> bin), the float accumulation of rss inside score_kbest (which gains are added is not tracked, only what is stored); in score_dense that the reduction results are the operands of the += chain (one reduction per bin with the right summand is proved, the chain of float additions over a symbolic number of bins is not)',
             'numeric value of the scaled coefficients (Eigen *= is recorded, not computed); sums of merged / predicted coefficients are exact only as uninterpreted IEEE terms',
             'nano::find for multi-label values (detail::hash over the row) stays an assumed contract',
             'native replay only for the dtree groups() finding (replay/C10_replay.cpp); other counterexamples would be (value, threshold, index) tuples',
@@ -743,6 +747,8 @@ def build(tier):
             'dtree do_fit: stump_wlearner_t::fit either fails or stores a feature, a threshold and a 2-row tables tensor; its split() has 2 groups; append(tables, t) adds t as the last row and keeps the others; std::vector / std::deque (FIFO, below max_size()) abstracted to the ghost pair and the caches that link its members (queue invariant by assume-guarantee: every pushed cache refers to the node appended just before, asserted); registered parameter domains (max_depth, min_split in [1, 10]); default member initialisers of cache_t (m_depth 0, m_parent 0) are the zero struct, those of dtree_node_t are pinned by a static_assert',
             'std::remove_if keeps exactly the elements for which the predicate is false, in order, at positions not after their old ones; vector::erase(first, end()) truncates at first',
             'single_feature_wlearner_t::vector(k) is m_tables.vector(k), tables() is m_tables (inline accessors in single.h); feature() is extracted',
+            'rss_smt (back end B): double treated as real; finite sums are linear and determined by their summand (the rss is opened at one generic output); accumulator_t accessors x0/x1/x2/r1/rx/r2 are opaque inputs (what they hold: accum.h); hinge m_beta0 is the zero array (checked syntactically: only declared, constructed, zeroed in the constructor, read by beta0()); ::nano::size(tdims()) is the number of outputs (<= 2^31), counts are in [0, 2^62]; both sides of a cut non-empty (fit.h) resp. the normal-equation denominator positive',
+            'sweeps: cache_t::m_score is not NaN when a sweep starts (default member initialiser no_fit_score(); preserved by every sweep: proved)',
             'lambda captures by reference denote the enclosing function\'s variables of the same name (closure objects are modelled as explicit argument lists / capture structs)',
         ],
         'trusted': [],
